@@ -41,6 +41,11 @@ func (self ValueString) Fields() (map[string]*Value, *Interrupt) {
 			if count < 0 {
 				return nil, NewThrowInterrupt(span, fmt.Sprintf("cannot repeat a string %d times", count))
 			}
+			// (strings.Repeat panics when the length of the result overflows, and the host has to stay alive)
+			const maxRepeatLen = 1 << 28
+			if len(self.Inner) > 0 && count > maxRepeatLen/len(self.Inner) {
+				return nil, NewThrowInterrupt(span, fmt.Sprintf("cannot repeat a string of length %d %d times: the result would be too long", len(self.Inner), count))
+			}
 			return NewValueString(strings.Repeat(self.Inner, count)), nil
 		}),
 		"split": NewValueBuiltinFunction(func(executor Executor, cancelCtx *context.Context, span errors.Span, args ...Value) (*Value, *Interrupt) {
